@@ -166,7 +166,7 @@ func (p *pipe) read(b []byte) (int, error) {
 		if len(p.arrived) > 0 && len(b) > 0 {
 			n := min(len(b), len(p.arrived))
 			if p.opts.ShortMax > 0 && n > 1 {
-				n = min(n, 1+p.s.Choose(p.opts.ShortMax))
+				n = min(n, 1+p.s.ChooseKeyed("short-read:"+p.name, p.opts.ShortMax))
 			}
 			copy(b, p.arrived[:n])
 			p.arrived = p.arrived[n:]
